@@ -251,10 +251,20 @@ def cases_c01(types, rng, tier):
                         node = nn["elems"][idx[lvl]] if nn["k"] == "array" else nn["fields"][idx[lvl]]["inst"]
                 if tier == "quick" and len(mal) > 6:
                     mal = rng.sample(mal, 6)
-                for vname, ks in variants + mal:
+                # chained keys whose first part ends in a key that does not resolve while the second part alone would
+                # (a chain must behave as the concatenation: the bad key is not skipped)
+                chains = []
+                for vname, ks in mal[:3]:
+                    lvl = int(vname.split("@")[1])
+                    a, b = ks[:lvl + 1], keys[lvl:]
+                    chains.append((f"chain@{lvl}", a + b, f"C[{keyspec_list(a)}][{keyspec_list(b)}]"))
+                if keys:
+                    cut = rng.randrange(len(keys) + 1)
+                    chains.append(("chain-exact", keys, f"C[{keyspec_list(keys[:cut])}][{keyspec_list(keys[cut:])}]"))
+                for vname, ks, *cspec in [(a_, b_) for a_, b_ in variants + mal] + chains:
                     pay = (payload_for(n, rng) if kind == "leaf" else None) or "1"
                     e = O.Expect(inst, {})
-                    spec = keyspec_list(ks)
+                    spec = cspec[0] if cspec else keyspec_list(ks)
                     opn = "jset" if vname != "exact-idx" or "any" not in t["traits"] else rng.choice(["jset", "mut"])
                     ops = [f"{opn}|{spec}|{enc(pay)}", "snap"]
                     exp = [e.run(opn, ks, pay), "snap=" + O.snap_text(e.inst)]
@@ -396,6 +406,24 @@ def cases_c05(types, rng, tier):
     for t in c.types:
         if not {"ser", "de"} <= set(t["traits"]):
             continue
+        # unreachable leaves of every other runtime state first (reachable ones are exercised on state 0 below)
+        for st in t["states"][1:]:
+            inst = st["inst"]
+            for keys, idx, kind, n in paths(inst, limit=40):
+                if kind != "leaf" or n["lk"] == "deny" or n["ty"] in ("f32", "f64"):
+                    continue
+                probe = O.Expect(inst, {}).run("jget", keys, BIG)
+                if probe is None or probe.startswith("ok"):
+                    continue
+                pay = payload_for(n, rng)
+                if pay is None:
+                    continue
+                spec = keyspec_list(keys)
+                e = O.Expect(inst, {})
+                ops = [f"jset|{spec}|{enc(pay)}", f"jget|{spec}|{BIG}", "snap"]
+                exp = [e.run("jset", keys, pay), e.run("jget", keys, BIG), "snap=" + O.snap_text(e.inst)]
+                c.add(t, st["sid"], {}, ops, exp, f"write/read of the unreachable leaf {keys} on {t['label']} state {st['sid']}",
+                      "unreachable")
         st = t["states"][0]
         inst = st["inst"]
         for keys, idx, kind, n in paths(inst, limit=40):
@@ -405,7 +433,16 @@ def cases_c05(types, rng, tier):
             ty = n["ty"]
             probe = O.Expect(inst, {}).run("jget", keys, BIG)
             if probe is not None and not probe.startswith("ok"):
-                continue  # leaf not reachable in this runtime state (absent variant etc.)
+                # leaf not reachable in this runtime state (absent variant, closed wrapper, ...): both helpers must report
+                # the error for reads and writes, and a write must change nothing
+                pay = payload_for(n, rng)
+                if pay is not None:
+                    e = O.Expect(inst, {})
+                    ops = [f"jset|{spec}|{enc(pay)}", f"jget|{spec}|{BIG}", "snap"]
+                    exp = [e.run("jset", keys, pay), e.run("jget", keys, BIG), "snap=" + O.snap_text(e.inst)]
+                    if not e.float_hit:
+                        c.add(t, st["sid"], {}, ops, exp, f"write/read of the unreachable leaf {keys} on {t['label']}", "unreachable")
+                continue
             if ty in ("f32", "f64"):
                 # floats: bit-exact round trip on the implementation only (a test, not a theorem)
                 for v in VAL.SAMPLES[ty]:
@@ -433,6 +470,16 @@ def cases_c05(types, rng, tier):
                     c.add(t, st["sid"], {}, [f"jset|{spec}|{enc(txt)}", f"jget|{spec}|64", f"jset|{spec}|{enc(txt)}"], chk,
                           f"float round trip {v[1]!r} on {t['label']} {keys}", "float")
                 continue
+            if n["lk"] == "strleaf":
+                # every ordered pair of tags: write a, write b, read back b (JSON and postcard)
+                for a_ in range(len(VAL.STRE)):
+                    for b_ in range(len(VAL.STRE)):
+                        e = O.Expect(inst, {})
+                        ta, tb_ = VAL.json_text("strleaf", ("var", a_)), VAL.json_text("strleaf", ("var", b_))
+                        ops = [f"jset|{spec}|{enc(ta)}", f"jset|{spec}|{enc(tb_)}", f"jget|{spec}|{BIG}", "snap"]
+                        exp = [e.run("jset", keys, ta), e.run("jset", keys, tb_), e.run("jget", keys, BIG),
+                               "snap=" + O.snap_text(e.inst)]
+                        c.add(t, st["sid"], {}, ops, exp, f"tag {VAL.STRE[a_]} then {VAL.STRE[b_]} on {t['label']} {keys}", "strleaf-pair")
             vals = VAL.SAMPLES[ty if n["lk"] != "strleaf" else "strleaf"]
             for v in vals:
                 v = O.norm_val(ty, v)
